@@ -11,8 +11,10 @@ external crates are **parameters** (trusted, exercised for real on the Rust side
 differential run):
 * `sha1  : Bytes → Bytes`                         — `sha1::Sha1::digest`
 * `unzip : Bytes → Option (List (Option Bytes))`  — `zip::ZipArchive::new` (`none` = the archive
-  cannot be opened), its members in directory order, each `some content` when
-  `by_index(i)` + `read_to_end` succeed and `none` when either fails
+  cannot be opened), its members in directory order (`zip.len()` counts directory entries too),
+  each `some content` when the member is a FILE and `by_index(i)` + `read_to_end` succeed, and
+  `none` when it is a directory entry (`ZipFile::is_dir`, refused by `genapi`) or when
+  `by_index` / `read_to_end` fail (encrypted, unsupported method, corrupt data, CRC mismatch)
 * `lossy : Bytes → Bytes`                         — `String::from_utf8_lossy` (UTF-8 bytes of the
   resulting `String`; the identity on valid UTF-8)
 
@@ -230,7 +232,7 @@ def decodeFile (o : Ops σ) (comp : Compression) (buf : Bytes) : R Bytes :=
       if members.length ≠ 1 then .err .invalidDevice
       else match members with
         | [some xml] => .ok (o.lossy xml)
-        | _ => .err .invalidDevice             -- `by_index(0)` / `read_to_end` failed
+        | _ => .err .invalidDevice             -- directory entry, or `by_index(0)` / `read_to_end` failed
 
 /-- `genapi` after `self.manifest_table()` -/
 def genapiFrom (o : Ops σ) (table : Nat) : M σ Bytes := do
